@@ -10,7 +10,8 @@
      go-compact-time v1.8.3        DecodeDate/Time/TimestampWithBuffer, fillSlice, decodeTimezone
      /repo/cte/decoder.go          Decode: io.Copy of the whole input, then the parser
      /repo/ce/decoder.go, api.go   universal entry points: bufio.NewReader + Peek(1)
-   written from the code as it is (after e4074d6):
+   written from the code as it is (/repo afaa1e5: after e4074d6 normalising Read, 8884bbf
+   buffer growth, 40e3af2 validateTime):
      - every read of the decoder and of the three external field decoders goes
        through Reader.Read, which retries (0, nil) reads, reports an error that
        arrived together with data on the NEXT call (pendingErr), keeps reporting
@@ -28,10 +29,16 @@
    than the caller's buffer is delivered in pieces (the remainder stays at the
    head of the script) — this is exactly what the harness's scriptReader does.
 
-   Not modelled: the interpretation of time-zone strings (compact_time's
-   area/location table; the string is kept raw), runtime allocation failure
-   for absurd length fields, errors other than io.EOF. *)
-From CE Require Export Base.Prelude Base.LE Model.Events Gen.RulesConsts.
+     - readIntoBuffer reads into the buffer it has (127 bytes at first) and
+       doubles it when it is full, so the capacity of each Read depends on the
+       buffer length, which is part of the state;
+     - ReadDate/ReadTime/ReadTimestamp reject a decoded time that fails
+       validateTime (Model/CbeTime.v [cbe_validate_time]); time values are the
+       [gtime] of Model/CbeTime.v, built with its constructors (area/location
+       names interpreted by [tz_at_area]).
+
+   Not modelled: errors other than io.EOF. *)
+From CE Require Export Base.Prelude Base.LE Model.Events Gen.RulesConsts Model.CbeTime.
 Open Scope N_scope.
 
 (* ------------------------------------------------------------------ *)
@@ -109,21 +116,8 @@ Definition mem_script (d : bytes) : script := match d with [] => [] | _ => [(d, 
 (* What the decoder delivers                                            *)
 (* ------------------------------------------------------------------ *)
 
-Inductive tzval :=
-| TzUTC                       (* the constant timezoneUTC *)
-| TzNamed (s : bytes)         (* from an area/location string (raw string; interpretation not modelled) *)
-| TzLatLong (lat lon : Z)
-| TzOffset (minutes : Z)
-| TzUnset                     (* zero values *)
-| TzDateLocal.                (* NewDate: Type = Local, empty names *)
-
-Record timeval := mkTime {
-  tm_type : N;                (* 0 date, 1 time, 2 timestamp *)
-  tm_year : Z; tm_month : N; tm_day : N;
-  tm_hour : N; tm_min : N; tm_sec : N; tm_ns : N;
-  tm_tz : tzval }.
-
-Inductive rtok := REv (e : event) | RTime (t : timeval).
+(* a time is the [gtime] of Model/CbeTime.v (compact_time.Time field by field) *)
+Inductive rtok := REv (e : event) | RTime (t : gtime).
 
 Inductive status := SOk | SErr | SHang.
 Definition result := (list rtok * status)%type.
@@ -136,6 +130,7 @@ Record rstate := mkst {
   s_src : src;
   s_pend : bool;              (* Reader.pendingErr != nil (only io.EOF is modelled) *)
   s_b0 : byte;                (* Reader.buffer[0] *)
+  s_blen : N;                 (* len(Reader.buffer) *)
   s_cnt : N;                  (* Reader.bytesRead *)
   s_out : list rtok }.        (* events delivered so far, newest first *)
 
@@ -164,17 +159,22 @@ Notation "m ;;; k" := (bind m (fun _ => k))
 Open Scope rs_scope.
 
 Definition emit (t : rtok) : M unit :=
-  fun s => Ret tt (mkst (s_src s) (s_pend s) (s_b0 s) (s_cnt s) (t :: s_out s)).
+  fun s => Ret tt (mkst (s_src s) (s_pend s) (s_b0 s) (s_blen s) (s_cnt s) (t :: s_out s)).
 Definition ev (e : event) : M unit := emit (REv e).
 Definition get_b0 : M byte := fun s => Ret (s_b0 s) s.
 Definition two64 : N := 18446744073709551616.
+(* decoderStartBufferSize *)
+Definition start_buffer : N := 127.
 
 (* Enough steps for every loop of the decoder: each iteration consumes at
    least one data byte or ends the loop (Reader.Read never returns (0, nil)). *)
 Definition dec_fuel (s : src) : nat := (length (src_data s) + 2)%nat.
 Definition get_fuel : M nat := fun s => Ret (dec_fuel (s_src s)) s.
 Definition set_b0 (x : byte) : M unit :=
-  fun s => Ret tt (mkst (s_src s) (s_pend s) x (s_cnt s) (s_out s)).
+  fun s => Ret tt (mkst (s_src s) (s_pend s) x (s_blen s) (s_cnt s) (s_out s)).
+Definition get_blen : M N := fun s => Ret (s_blen s) s.
+Definition set_blen (n : N) : M unit :=
+  fun s => Ret tt (mkst (s_src s) (s_pend s) (s_b0 s) n (s_cnt s) (s_out s)).
 
 (* The retry loop of Reader.Read: read until data or an error arrives. *)
 Fixpoint skip_zeros (fuel : nat) (cap : N) (s : src) : option (bytes * bool * src) :=
@@ -200,11 +200,11 @@ Section Decoder.
       if s_pend s then Ret ([], true) s
       else match skip_zeros (S (src_zeros (s_src s))) cap (s_src s) with
            | None => Stuck
-           | Some ([], _, src') => Ret ([], true) (mkst src' true (s_b0 s) (s_cnt s) (s_out s))
+           | Some ([], _, src') => Ret ([], true) (mkst src' true (s_b0 s) (s_blen s) (s_cnt s) (s_out s))
            | Some (bs, e, src') =>
                let c := s_cnt s + lenN bs in
-               if maxdoc <? c then Fail (mkst src' e (s_b0 s) c (s_out s))
-               else Ret (bs, false) (mkst src' e (s_b0 s) c (s_out s))
+               if maxdoc <? c then Fail (mkst src' e (s_b0 s) (s_blen s) c (s_out s))
+               else Ret (bs, false) (mkst src' e (s_b0 s) (s_blen s) c (s_out s))
            end.
 
   (* One Read(buffer[:1]).  Returns (a byte arrived, io.EOF was returned).
@@ -224,7 +224,7 @@ Section Decoder.
   Definition read_type_or_eof : M (option byte) :=
     r <- rd1 ;; if snd r then ret None else b <- get_b0 ;; ret (Some b).
 
-  (* The loop shared by readIntoBuffer and compact_time.fillSlice:
+  (* compact_time.fillSlice:
        for len(dst) > 0 { n, err := Read(dst); if err != nil { fail }; dst = dst[n:] }
      [at0] tells whether dst starts at buffer[0] (then buffer[0] is overwritten). *)
   Fixpoint fill_loop (fuel : nat) (need : N) : M bytes :=
@@ -244,8 +244,35 @@ Section Decoder.
          (if at0 then match bs with x :: _ => set_b0 x | [] => ret tt end else ret tt) ;;;
          ret bs.
 
+  (* Reader.growBuffer(filled, wanted): the new length *)
+  Definition grow_buffer (blen wanted : N) : N := N.min (N.max (2 * blen) start_buffer) (2 * wanted).
+
+  (* Reader.readIntoBuffer(count):
+       for filled < count {
+         if filled == len(buffer) { grow }
+         n, err := Read(buffer[filled:min(len(buffer), count)]); if err != nil { fail }; filled += n }
+     Result: the bytes and the buffer length at the end. *)
+  Fixpoint rib_loop (fuel : nat) (count filled blen : N) (acc : bytes) : M (bytes * N) :=
+    match fuel with
+    | O => stuck
+    | S f =>
+        if count <=? filled then ret (acc, blen)
+        else
+          let blen' := if filled =? blen then grow_buffer blen count else blen in
+          r <- nrd (N.min blen' count - filled) ;;
+          if snd r then fail
+          else rib_loop f count (filled + lenN (fst r)) blen' (acc ++ fst r)
+    end.
+
   (* Reader.ReadBytes / readIntoBuffer *)
-  Definition read_bytes (n : N) : M bytes := fill true n.
+  Definition read_bytes (n : N) : M bytes :=
+    if n =? 0 then ret []
+    else fuel <- get_fuel ;;
+         blen <- get_blen ;;
+         r <- rib_loop fuel n 0 blen [] ;;
+         set_blen (snd r) ;;;
+         (match fst r with x :: _ => set_b0 x | [] => ret tt end) ;;;
+         ret (fst r).
 
   (* uleb128.DecodeWithByteBuffer(reader, buffer) with buffer[:1] = Reader.buffer[:1].
      Result: value, number of bytes counted, and whether asBigInt is non-nil
@@ -333,14 +360,11 @@ Section Decoder.
         then ev (EBigDecimal (Some (DFin neg (u_val c) exponent)))
         else ev (EDecimal (DFin (neg && negb (u_val c =? 0)) (u_val c) exponent)).
 
-  (* ---- compact_time ---- *)
+  (* ---- compact_time (field extraction here, values and validation from Model/CbeTime.v) ---- *)
   Definition bits (v : N) (lo width : N) : N := N.land (N.shiftr v lo) (N.ones width).
   Definition sext (width v : N) : Z :=
     if N.testbit v (width - 1) then (Z.of_N v - Z.of_N (N.shiftl 1 width))%Z else Z.of_N v.
-  (* decodeYear: zigzag32 + 2000 *)
-  Definition decode_year (enc : N) : Z :=
-    ((if N.testbit enc 0 then (- Z.of_N (N.shiftr enc 1) - 1) else Z.of_N (N.shiftr enc 1)) + 2000)%Z.
-  (* (asUint << low) | accumulator with the "Year is too big" tests *)
+  (* (asUint << low) | accumulator with the "Year is too big" tests, then decodeYear *)
   Definition year_of (u : ulebv) (low acc : N) : option Z :=
     let enc := N.lor (N.shiftl (u_val u) low mod two64) acc in
     if u_big u then None
@@ -350,7 +374,11 @@ Section Decoder.
   Definition sel4 (m a b c d : N) : N :=
     if m =? 0 then a else if m =? 1 then b else if m =? 2 then c else d.
 
-  Definition read_timezone : M tzval :=
+  (* Reader.validateTime, then the event *)
+  Definition deliver_time (t : gtime) : M unit :=
+    if cbe_validate_time t then emit (RTime t) else fail.
+
+  Definition read_timezone : M gzone :=
     r <- rd1 ;;
     if snd r then fail
     else
@@ -358,16 +386,17 @@ Section Decoder.
       if N.testbit h 0 then
         rest <- fill false 3 ;;
         let v := le_decode (h :: rest) in
-        ret (TzLatLong (sext 15 (bits v 1 15)) (sext 16 (bits v 16 16)))
+        ret (tz_at_latlong (sext 15 (bits v 1 15)) (sext 16 (bits v 16 16)))
       else
         let len := N.shiftr h 1 in
         if len =? 0 then
           bs <- fill true 2 ;;
           let raw := le_decode bs in
           let minutes := if N.testbit raw 11 then sext 16 (N.lor raw 0xf000) else Z.of_N (N.land raw 0xfff) in
-          ret (if (minutes =? 0)%Z then TzUTC else TzOffset minutes)
+          ret (tz_with_minutes minutes)
         else
-          bs <- fill true len ;; ret (TzNamed bs).
+          bs <- fill true len ;;
+          ret (if bytes_eqb bs [76] then tz_local else if bytes_eqb bs [90] then tz_utc else tz_at_area bs).
 
   Definition read_date : M unit :=
     bs <- fill true 2 ;;
@@ -379,8 +408,8 @@ Section Decoder.
     | None => fail
     | Some year =>
         if (year =? 2000)%Z && (month =? 0) && (day =? 0)
-        then emit (RTime (mkTime 0 0 0 0 0 0 0 0 TzUnset))
-        else emit (RTime (mkTime 0 year month day 0 0 0 0 TzDateLocal))
+        then deliver_time (zero_time KDate)
+        else deliver_time (new_date year month day)
     end.
 
   Definition read_time : M unit :=
@@ -399,9 +428,9 @@ Section Decoder.
       let hr := bits acc (15 + sub) 5 in
       let resv := N.shiftr acc (20 + sub) in
       if negb (resv =? sel4 mag 0xf 3 0 0x3f) then
-        if resv =? 0 then emit (RTime (mkTime 1 0 0 0 0 0 0 0 TzUnset)) else fail
-      else if negb (N.testbit acc 0) then emit (RTime (mkTime 1 0 0 0 hr mi sec ns TzUTC))
-      else tz <- read_timezone ;; emit (RTime (mkTime 1 0 0 0 hr mi sec ns tz)).
+        if resv =? 0 then deliver_time (zero_time KTime) else fail
+      else if negb (N.testbit acc 0) then deliver_time (new_time hr mi sec ns tz_utc)
+      else tz <- read_timezone ;; deliver_time (new_time hr mi sec ns tz).
 
   Definition read_timestamp : M unit :=
     r <- rd1 ;;
@@ -425,9 +454,9 @@ Section Decoder.
       | Some year =>
           if negb (N.testbit acc 0) then
             if (year =? 2000)%Z && (month =? 0) && (day =? 0)
-            then emit (RTime (mkTime 2 0 0 0 0 0 0 0 TzUnset))
-            else emit (RTime (mkTime 2 year month day hr mi sec ns TzUTC))
-          else tz <- read_timezone ;; emit (RTime (mkTime 2 year month day hr mi sec ns tz))
+            then deliver_time (zero_time KTimestamp)
+            else deliver_time (new_timestamp year month day hr mi sec ns tz_utc)
+          else tz <- read_timezone ;; deliver_time (new_timestamp year month day hr mi sec ns tz)
       end.
 
   (* ---- arrays ---- *)
@@ -573,7 +602,7 @@ Section Decoder.
 
   (* A fresh decoder (buffer zeroed, nothing read) on source [s]. *)
   Definition cbe_decode_src (s : src) : result :=
-    finish (decode_doc (dec_fuel s) (mkst s false 0 0 [])).
+    finish (decode_doc (dec_fuel s) (mkst s false 0 start_buffer 0 [])).
 
   (* NewCBEDecoder().Decode(reader) / UnmarshalCBE(reader) on a scripted reader *)
   Definition decode_stream (sc : script) : result := cbe_decode_src (Direct sc).
@@ -681,24 +710,10 @@ Definition has_data_eof (sc : script) : bool :=
 (* Correspondence cases                                                 *)
 (* ------------------------------------------------------------------ *)
 
-Definition tz_eqb (model impl : tzval) : bool :=
-  match model, impl with
-  | TzUTC, TzUTC | TzUnset, TzUnset | TzDateLocal, TzDateLocal => true
-  | TzNamed _, TzNamed _ | TzNamed _, TzUTC => true      (* names are not interpreted *)
-  | TzLatLong a b, TzLatLong c d => (a =? c)%Z && (b =? d)%Z
-  | TzOffset a, TzOffset b => (a =? b)%Z
-  | _, _ => false
-  end.
-
-Definition time_eqb (a b : timeval) : bool :=
-  (tm_type a =? tm_type b) && (tm_year a =? tm_year b)%Z && (tm_month a =? tm_month b) &&
-  (tm_day a =? tm_day b) && (tm_hour a =? tm_hour b) && (tm_min a =? tm_min b) &&
-  (tm_sec a =? tm_sec b) && (tm_ns a =? tm_ns b) && tz_eqb (tm_tz a) (tm_tz b).
-
 Definition rtok_eqb (model impl : rtok) : bool :=
   match model, impl with
   | REv a, REv b => event_eqb a b
-  | RTime a, RTime b => time_eqb a b
+  | RTime a, RTime b => gtime_eqb a b
   | _, _ => false
   end.
 
